@@ -359,6 +359,7 @@ class Gen:
         last, lastk = None, 0
         optional = set()
         loopvars = {}
+        opt_substs = []
         etas = []
         hoist = {}
         for bl in block:
@@ -384,6 +385,9 @@ class Gen:
                 m = re.match(r'ghost\s+(start|end)()\s*:\s*(.*)$', dd) or re.match(r'ghost\??\s+(before|after)\s+"(.*?)"\s*:\s*(.*)$', dd)
                 if m:
                     ghosts.append((m.group(1), m.group(2), m.group(3), dd.startswith('ghost?'))); last, lastk = 'ghost', 0; continue
+                m = re.match(r'subst\?\s+"(.*)"\s*=>\s*"(.*)"(?:\s+(R\d))?$', dd)
+                if m:
+                    opt_substs.append((m.group(1).replace('\\"', '"').replace('\\n', '\n'), m.group(2).replace('\\"', '"').replace('\\n', '\n'), m.group(3) or 'R5')); continue
                 m = re.match(r'subst\s+"(.*)"\s*=>\s*"(.*)"(?:\s+(R\d))?$', dd)
                 if m:
                     substs.append((m.group(1).replace('\\"', '"'), m.group(2).replace('\\"', '"'), m.group(3) or 'R5')); continue
@@ -502,10 +506,12 @@ class Gen:
             p = btxt.find(anchor)
             pos = p if where == 'before' else p + len(anchor)
             edits.append((pos, pos, ' ' + text + ' ', 'G'))
-        # listed substitutions (shims)
-        for a, b, kind in substs:
+        # listed substitutions (shims); `subst?` ones apply only where the text occurs
+        for a, b, kind in substs + opt_substs:
             cnt = btxt.count(a)
             if cnt == 0:
+                if (a, b, kind) in opt_substs:
+                    continue
                 raise Undecided('lost anchor: subst text %r not in fn %s' % (a, label))
             p = -1
             while True:
